@@ -41,6 +41,31 @@ CLAIMED["C15"] = dict(
     technique="Coq proof (simulation up to spans, invariants over the character loop) + generated character tables + in-Coq correspondence",
     design="8 C15")
 
+CLAIMED["C02"] = dict(
+    text="Gallina model of the materializer build path over exact rationals; theorems: the row-wise Kronecker product yields exactly one column per "
+         "choice of one encoded column per factor, named by joining names with ':' and valued by the cell-wise product, first factor fastest, "
+         "width = product of widths; scaling and intercept cell-wise; full/reduced dummy encodings. `build` must equal the implementation "
+         "(names, exact values, drop set, recorded scoped terms) for pandas/numpy/sparse; each column is also recomputed from its label.",
+    note="Coq kernel + vm_compute; pandas level discovery and float arithmetic on dyadic test values modelled; Python-expression factors outside the model",
+    technique="Coq proof over a list-of-columns model (induction over factor lists) + exact in-Coq correspondence of whole model matrices",
+    design="8 C02")
+CLAIMED["C03"] = dict(
+    text="Coq: `_simplify_scoped_terms` preserves the multiset of components (intervals of the subset lattice) of every family of scoped terms, "
+         "terminates within the stated fuel, and canonical spanned terms sharing a component are equal (so subtracting already-spanned terms keeps "
+         "components disjoint); the materializer model uses that verified function and its recorded scoped terms equal the implementation's on "
+         "every case. The bridge from components to rank is validated by exact rational rank on fully crossed designs, all contrasts.",
+    note="Coq kernel + vm_compute; component<->column-space bridge argued on paper and validated by exact rank computation, not mechanised; loop-level cover theorem not yet mechanised",
+    technique="Coq proof (multiset-of-components invariant of the greedy merge) + structure correspondence + exact-rank oracle",
+    design="8 C03")
+CLAIMED["C06"] = dict(
+    text="Coq: the drop set equals caller's set u null positions of evaluated factors (sorted, duplicate-free, independent of pool order); kept rows "
+         "are exactly the positions outside it, in order; raise iff a null; ignore keeps all; the regenerated call-edge table shows every entry "
+         "point forwarding drop_rows. The model's drop set/rows/error class equal the implementation's on all small null patterns and random "
+         "frames (any index kind, output type); every entry point is exercised directly.",
+    note="Coq kernel + vm_compute; AST-derived entry-point table (translator); pandas null detection and index handling modelled",
+    technique="Coq proof over the build model + generated entry-point forwarding table + exhaustive small null patterns in correspondence",
+    design="8 C06")
+
 NOT_YET = {}
 
 
